@@ -548,7 +548,7 @@ fn deflate_side(ctx: &mut Ctx, env: &OpEnv) {
                                     // a stream that was reset or ended again after only a few bytes cannot be judged from
                                     // those bytes: let the reference finish it instead (the same program cut before the
                                     // next reset / end, then the Finish tail) and look at what it then wrote
-                                    if ok_b {
+                                    if ok_b && !risky {
                                         for (i, _) in ops.iter().enumerate().filter(|(_, o)| matches!(o, DOp::Reset)) {
                                             let j = ops[i + 1..].iter().position(|o| matches!(o, DOp::Reset | DOp::ResetKeep | DOp::End | DOp::Copy | DOp::CopyEndCopy)).map_or(ops.len(), |k| i + 1 + k);
                                             if j == ops.len() {
